@@ -156,7 +156,7 @@ func randText(r *core.Rng, o RecOpts) string {
 	default:
 		n = r.Range(401, 1000)
 		if r.Chance(1, 3) {
-			n = r.Range(1001, 4090) // up to the 4 KiB read window, on every path
+			n = r.Pick(1535, 1536, 4094, 4095, r.Range(1001, 4090), r.Range(1001, 4090)) // up to the 4 KiB read window (with its NUL), on every path
 		}
 	}
 	b := make([]byte, n)
@@ -172,7 +172,7 @@ func randText(r *core.Rng, o RecOpts) string {
 
 func asciiVal(r *core.Rng, s string) Val {
 	b := append([]byte(s), 0)
-	if r.Chance(1, 10) { // extra NUL padding after the terminator
+	if r.Chance(1, 10) && len(b)+3 <= 4096 { // extra NUL padding after the terminator (the whole value stays within the 4 KiB window)
 		for k := r.Range(1, 3); k > 0; k-- {
 			b = append(b, 0)
 		}
